@@ -95,7 +95,7 @@ pub fn check(c: &Case) -> CheckResult {
     Ok(pass)
 }
 
-fn strategy() -> impl Strategy<Value = Case> {
+pub fn strategy() -> impl Strategy<Value = Case> {
     (any::<bool>(), filter()).prop_flat_map(|(storage, filter)| gb::hostile(storage).prop_map(move |buf| Case { buf, storage, filter: filter.clone() }))
 }
 
